@@ -71,7 +71,7 @@ def _run_oracle(tname, pos, kw):
     return ('logged', ent)
 
 
-def c13_args(split, b0, b1, b2, b3, b4, n0, n1, nk, nz):
+def c13_args(split, b0, b1, b2, b3, b4, n0, n1, nk, nz, rev):
     reset()
     tname = split['target']
     mode = split['mode']
@@ -91,10 +91,12 @@ def c13_args(split, b0, b1, b2, b3, b4, n0, n1, nk, nz):
     if nz:
         name_args['zz'] = 203
     items = ['%d: %d' % (i, v) for i, v in int_args.items()] + ['%s: %d' % (n, v) for n, v in name_args.items()]
+    if rev:
+        items.reverse()          # keys written in descending order: positions must be bound by value, not by order of appearance
     dyn = split.get('dyn')
     doc = 'v: {w: 100}\n'
     if dyn and 0 in int_args:
-        items[0] = "0: !xref 'v.w'"
+        items[items.index('0: 100')] = "0: !xref 'v.w'"
     doc += 'c: !%s:engine.targets.%s {%s}\n' % (mode, tname, ', '.join(items))
     note(doc=doc)
     exp = _expected_call(tname, int_args, name_args)
@@ -269,8 +271,8 @@ def _splits_merge(tier):
 
 HARNESSES = {
     'c13_args': Harness('c13_args', c13_args,
-                        [('b0', 'bool'), ('b1', 'bool'), ('b2', 'bool'), ('b3', 'bool'), ('b4', 'bool'), ('n0', 'bool'), ('n1', 'bool'), ('nk', 'bool'), ('nz', 'bool')],
-                        _splits_args, pre='(not b4 or b3) and (not nz or not nk)', doc='7 target signatures x any subset of positions 0..4 and of 4 names (symbolic presence) x call/bind', witnesses=('called', 'error')),
+                        [('b0', 'bool'), ('b1', 'bool'), ('b2', 'bool'), ('b3', 'bool'), ('b4', 'bool'), ('n0', 'bool'), ('n1', 'bool'), ('nk', 'bool'), ('nz', 'bool'), ('rev', 'bool')],
+                        _splits_args, pre='(not b4 or b3) and (not nz or not nk) and (not rev or (b0 or b1 or b2 or b3))', doc='7 target signatures x any subset of positions 0..4 and of 4 names (symbolic presence) x call/bind', witnesses=('called', 'error')),
     'c13_forms': Harness('c13_forms', c13_forms, [('k', 'int', 0, 5)],
                          lambda tier: [{'mode': m, 'simple': s} for m in ('call', 'bind') for s in (False, True)],
                          doc='list / scalar / empty argument forms', witnesses=('called',)),
